@@ -543,6 +543,72 @@ def rts_accept(ctx, L, rule="R-RTS-ACCEPT"):
             seen.setdefault(inst, None)
         elif seen.get(inst) is None:
             seen[inst] = aborts[0][1].node
+    # silent drops: an RTS that is neither accepted nor answered.  Decided where the dropping condition is a box over the announcement's
+    # own fields: it must not contain a legal announcement (9..1785 bytes in 2..255 packets, any packets-per-CTS byte)
+    if not L.fd:
+        from sa import guards as _G
+        from sa.sym import mk_bin
+        d = lambda i: ("sub", ("p", "data"), ("c", i))
+        size = mk_bin("|", d(1), mk_bin("<<", d(2), ("c", 8)))
+        box = {size: (9, 1785), d(3): (2, 255), d(4): (1, 255), d(1): (0, 255), d(2): (0, 6)}
+        inst = "%s RTS is never dropped silently for a legal announcement (9..1785 bytes, 2..255 packets)" % L.tag
+        dropped = None
+        for r in runs(ctx, f):
+            gs = r.guards()
+            gl = lits(gs)
+            if not any(p and g[0] == "cmp" and g[1] == "==" and ("c", rts) in (g[2], g[3]) and contains(g, d(0)) for g, p in gl):
+                continue
+            if r.term in ("raise", "exc"):
+                continue
+            created = any(e.kind == "store" and e.value[0] == "dict" and root_field(e.target) == "_rcv_buffer" for _, e in r.effects())
+            if created or L.calls(r, "__send_tp_abort") or L.calls(r, "__send_tp_cts"):
+                continue
+            # literals other than the branch selection and the source-address plausibility test
+            rest = [(g, p) for g, p in gl if not contains(g, d(0)) and not contains(g, ("attr", ("p", "mid"), "source_address"))]
+            if not rest:
+                continue
+            # disjunctive normal form of the remaining condition (a positive `or` / negated `and` splits into cases)
+            cases = [[]]
+            for g, p in rest:
+                if g[0] == "not":
+                    g, p = g[1], not p
+                if g[0] == "bool" and ((g[1] == "or" and p) or (g[1] == "and" and not p)):
+                    cases = [c + [(x, p)] for c in cases for x in g[2]]
+                elif g[0] == "bool":
+                    cases = [c + [(x, p) for x in g[2]] for c in cases]
+                else:
+                    cases = [c + [(g, p)] for c in cases]
+            def _nn(g, p):
+                while g[0] == "not":
+                    g, p = g[1], not p
+                return g, p
+            for case in cases[:64]:
+                case = [_nn(g, p) for g, p in case]
+                iv = _G.intervals(case)
+                known = all(g[0] == "cmp" and g[1] in ("<", "==") and ((is_const(g[2]) and g[3] in box) or (is_const(g[3]) and g[2] in box))
+                            and (p or g[1] == "<") for g, p in case)
+                if not known or not iv:
+                    continue
+                feasible = True
+                for k, (lo, hi) in iv.items():
+                    blo, bhi = box[k]
+                    lo = blo if lo is None else max(lo, blo)
+                    hi = bhi if hi is None else min(hi, bhi)
+                    if lo > hi:
+                        feasible = False
+                        break
+                if feasible:
+                    dropped = (r, iv)
+                    break
+            if dropped is not None:
+                break
+        if dropped is not None:
+            r, iv = dropped
+            ctx.violated(rule, f, inst, "the RTS arm returns without session, CTS or abort when %s - this includes legal announcements (e.g. a "
+                         "1779..1785 byte message has 255 packets): send_pgn on the other side accepted the message, it is never delivered" % (
+                             ", ".join("%s in [%s, %s]" % (pretty(k)[:30], v[0], v[1]) for k, v in iv.items())), f.node)
+        else:
+            ctx.holds(rule, inst)
     for inst, bad in seen.items():
         if bad is None:
             ctx.holds(rule, inst)
@@ -551,3 +617,121 @@ def rts_accept(ctx, L, rule="R-RTS-ACCEPT"):
                          "condition - e.g. a send session of this stack to that peer - refuses it): transfers crossing on the pair are lost", bad)
     if n == 0:
         ctx.unknown(rule, "%s: RTS refusal path not found" % f.qual)
+
+
+def session_fresh(ctx, L, rule="R-SESSION-FRESH"):
+    """every receive session starts with its OWN empty reassembly buffer: the 'data' entry of the session record is an empty container
+    created when the session is opened.  A container created once (constructor, class body, default template) and handed to every session
+    is shared: it still holds the previous message's bytes, so the next session completes early with stale / blended data."""
+    import ast
+    f = L.cm
+    seen = {}
+    for r in runs(ctx, f):
+        for i, e in r.effects():
+            if not (e.kind == "store" and e.value[0] == "dict" and root_field(e.target) == "_rcv_buffer"):
+                continue
+            d = dict(e.value[1])
+            ctl = [g for g, p in lits(r.guards()) if p and g[0] == "cmp" and g[1] == "==" and contains(g, ("sub", ("p", "data"), ("c", 0)))]
+            what = {v: k for k, v in L.ctl.items()}.get(next((x[1] for g in ctl for x in (g[2], g[3]) if is_const(x)), None), "?")
+            inst = "%s %s arm: the new receive session gets its own empty data buffer" % (L.tag, what)
+            v = d.get(("c", "data"))
+            verdict = None
+            if v is not None:
+                fresh = v == ("list", ()) or (v[0] == "call" and v[1] in (("glob", "list"), ("glob", "bytearray")) and not v[2] and not v[3])
+                if fresh:
+                    verdict = (True, None)
+                elif any(isinstance(x, tuple) and x[:2] == ("attr", SELF) for x in walk(v)) or v[0] == "attr":
+                    verdict = (False, "the session's data buffer is %s, an object that outlives the session" % pretty(v)[:50])
+            else:
+                sp = d.get(("c", "**"))
+                if sp is not None and sp[0] == "attr" and sp[1] == SELF:
+                    # a template spread into the record: a shallow copy - a list inside the template is the same object in every session
+                    fld = sp[2]
+                    cls = f.cls
+                    shared = None
+                    for n in ast.walk(cls.node):
+                        tgt = None
+                        if isinstance(n, ast.Assign):
+                            for t in n.targets:
+                                if (isinstance(t, ast.Attribute) and t.attr == fld) or (isinstance(t, ast.Name) and t.id == fld):
+                                    tgt = n.value
+                        if isinstance(tgt, ast.Dict):
+                            for k, val in zip(tgt.keys, tgt.values):
+                                if isinstance(k, ast.Constant) and k.value == "data" and isinstance(val, (ast.List, ast.Call)):
+                                    shared = n
+                    if shared is not None:
+                        verdict = (False, "the record is built by spreading the template self.%s (line %d); the spread copies the template's "
+                                   "'data' list by reference, so every receive session of this stack appends to the same list" % (fld, shared.lineno))
+            if verdict is None:
+                seen.setdefault(inst, ("?", e.node))
+            elif verdict[0]:
+                seen.setdefault(inst, (None, e.node))
+            else:
+                seen[inst] = (verdict[1], e.node)
+    for inst, (bad, node) in seen.items():
+        if bad is None:
+            ctx.holds(rule, inst)
+        elif bad == "?":
+            ctx.unknown(rule, "%s: origin of the session's data buffer not recognised" % inst)
+        else:
+            ctx.violated(rule, f, inst, bad + ": it still contains the previous message's bytes - the next message is completed early and "
+                         "delivered with stale or blended content", node)
+    if not seen:
+        ctx.unknown(rule, "%s: no receive-session record found" % f.qual)
+
+
+def dt_minlen(ctx, L, rule="R-DT-MINLEN"):
+    """FD.TP.DT: a frame with the 4 header bytes and at least one data byte (5..64 bytes) is a legal segment - the last segment of a message
+    carries 1..60 bytes.  The length plausibility test at the top of the handler must not drop such a frame."""
+    from sa import guards as _G
+    f = L.dt
+    LEN = ("call", ("glob", "len"), (("p", "data"),), ())
+    n = 0
+    bad = None
+
+    for r in runs(ctx, f):
+        if r.term != "return":
+            continue
+        gs = r.guards()
+        if not gs or any(e.kind in ("store", "aug", "del") for _, e in r.effects()):
+            continue
+        lits_ = []
+        okp = True
+        for g, p in gs:
+            while g[0] == "not":
+                g, p = g[1], not p
+            if not (g[0] == "cmp" and g[1] in ("<", "==")):
+                okp = False
+                break
+            sides = []
+            for x in (g[2], g[3]):
+                if is_const(x) and isinstance(x[1], int):
+                    sides.append(("k", x[1]))
+                elif x == LEN:
+                    sides.append(("len", 0))
+                elif x[0] == "call" and x[1] == ("glob", "len") and len(x[2]) == 1 and x[2][0][0] == "sub" and x[2][0][1] == ("p", "data") and \
+                        x[2][0][2][0] == "slice" and is_const(x[2][0][2][1]) and x[2][0][2][2] is None and isinstance(x[2][0][2][1][1], int) \
+                        and 0 <= x[2][0][2][1][1] <= 4:
+                    sides.append(("len", x[2][0][2][1][1]))
+                else:
+                    okp = False
+            if not okp or sorted(s[0] for s in sides) != ["k", "len"]:
+                okp = False
+                break
+            lits_.append((g[1], sides, p))
+        if not okp or not lits_:
+            continue
+        n += 1
+        dropped = [v for v in range(5, 65) if all(
+            ((lambda a, b: (a < b) if op == "<" else (a == b))(*[(s[1] if s[0] == "k" else v - s[1]) for s in sides])) == p for op, sides, p in lits_)]
+        if dropped and bad is None:
+            bad = (r, dropped)
+    inst = "%s DT length test passes every frame with a header and at least one data byte" % L.tag
+    if bad is not None:
+        ctx.violated(rule, f, inst, "frames of %s bytes are dropped as too short although they carry %s data byte(s) after the 4 header bytes: a message "
+                     "whose last segment is that short is never completed (no EndOfMsgACK, broadcast lost)" % (
+                         "%d..%d" % (bad[1][0], bad[1][-1]), "%d..%d" % (bad[1][0] - 4, bad[1][-1] - 4)), f.node)
+    elif n:
+        ctx.holds(rule, inst)
+    else:
+        ctx.holds(rule, inst, "no length-only rejection in the handler")
